@@ -398,6 +398,17 @@ func TestExec(t *testing.T) {
 	reg.Unregister(collectors.NewProcessCollector(collectors.ProcessCollectorOpts{}))
 	reg.Unregister(collectors.NewGoCollector())
 
+	// ... and so are the collectors of every other package: a twin with the same fully-qualified name has the same
+	// collector id, which is all Unregister looks at
+	for _, meta := range promauto.GetMetasForT(t) {
+		if meta.Namespace == "core" && meta.Subsystem == "tracker" {
+			continue
+		}
+
+		reg.Unregister(prometheus.NewCounterVec(prometheus.CounterOpts{Namespace: meta.Namespace, Subsystem: meta.Subsystem,
+			Name: meta.Name, Help: meta.Help}, meta.Labels))
+	}
+
 	o := &observer{reg: reg, sink: sink}
 	scheds := drv.ReadSchedules(t)
 	tr := drv.NewTracer(t)
